@@ -598,8 +598,89 @@ def refused_write_hook_stream(ctx, res):
                     res.violate("C06:write-hook-changed-state", "an assignment refused by the field's write hook __setval__ changed the configuration (value, tree or user-defined status)",
                                 dict(case, before=repr(before)[:200], after=repr(after)[:200]))
 
+def subclass_refusals_stream(ctx, res):
+    """(a) a list of a config-type SUBCLASS whose own `validate()` refuses with a plain exception (not the library's error): the offered
+    configuration object — a live one that sits in a section or in another list — stays where it was (values, marks, its place as its
+    reference path reports it), and the list is as before; (b) a command-line override is a sequence of assignments: whatever it does
+    when a cross-field rule of the schema is broken, an override that RAISES has not stored the value it raises about"""
+    import argparse
+    import ext
+    import cincoconfig as cc
+    from cincoconfig.support import validator as register
+    X = ext.ns()
+    rng_s = cc.Schema()
+    rng_s.name = cc.StringField(default="r")
+    rng_s.lo = cc.IntField(default=1)
+    rng_s.hi = cc.IntField(default=2)
+    Base = cc.make_type(rng_s, "C06Range")
+
+    class Range(X["CheckedType"], Base):
+        pass
+    s = cc.Schema()
+    s.primary = Range
+    s.pool.mirrors = cc.ListField(Range, default=lambda: [])
+    s.pool.backups = cc.ListField(Range, default=lambda: [])
+    for source in ("section", "other-list"):
+        for op in ("append", "insert", "setitem"):
+            cfg = s()
+            cfg.pool.mirrors = [Range(name="m0")]
+            cfg.pool.backups = [Range(name="b0")]
+            cfg.primary = Range(name="p")
+            item = cfg.primary if source == "section" else cfg.pool.backups[0]
+            item.lo, item.hi = 9, 3                      # each assignment is fine for its field; the type's own validate() refuses the pair
+            where0 = cc.item_ref_path(item)
+            tree0 = cfg.to_tree()
+            ids0 = [id(x) for x in cfg.pool.mirrors]
+            try:
+                if op == "append":
+                    cfg.pool.mirrors.append(item)
+                elif op == "insert":
+                    cfg.pool.mirrors.insert(0, item)
+                else:
+                    cfg.pool.mirrors[0] = item
+                raised = False
+            except Exception:  # noqa
+                raised = True
+            case = {"stream": "subclass-refusals", "offered_from": source, "op": op}
+            res.case(stable(case) if raised else None, kind="subclass-refusals:" + ("rejected" if raised else "accepted"))
+            if raised and (cfg.to_tree() != tree0 or [id(x) for x in cfg.pool.mirrors] != ids0 or cc.item_ref_path(item) != where0 or (cfg.primary if source == "section" else cfg.pool.backups[0]) is not item):
+                res.violate("C06:list-op-changed-state", "a list refused a configuration object (the config type's own validate() raised) and the configuration is not as before: the offered "
+                            "object no longer is where it was", dict(case, place_before=where0, place_after=cc.item_ref_path(item)))
+    # (b)
+    t = cc.Schema()
+    t.x = cc.IntField(default=5)
+    t.y = cc.IntField(default=8)
+    t.db.username = cc.StringField()
+    t.db.password = cc.StringField()
+
+    @register(t)
+    def ordered(cfg):
+        if cfg.x >= cfg.y:
+            raise ValueError("x must be less-than y")
+
+    @register(t.db)
+    def creds(cfg):
+        if cfg.username and not cfg.password:
+            raise ValueError("password is required when username is specified")
+    for ns in ({"y": "3"}, {"db.username": "am\u00e9lie"}, {"x": "9"}, {"x": "1", "y": "0"}):
+        cfg = t()
+        tree0 = cfg.to_tree()
+        marks0 = {k: cc.is_value_defined(cfg, k) for k in ("x", "y", "db.username", "db.password")}
+        try:
+            cc.cmdline_args_override(cfg, argparse.Namespace(**ns))
+            raised = False
+        except Exception:  # noqa
+            raised = True
+        case = {"stream": "override-vs-schema-rule", "namespace": ns}
+        res.case(stable(case) if raised else None, kind="override-vs-schema-rule:" + ("rejected" if raised else "accepted"))
+        marks1 = {k: cc.is_value_defined(cfg, k) for k in marks0}
+        if raised and (cfg.to_tree() != tree0 or marks1 != marks0):
+            res.violate("C06:override-changed-state", "a command-line override raised (a rule of the schema is broken) with the value already stored and marked user-defined",
+                        dict(case, before=tree0, after=cfg.to_tree()))
+
 def run(ctx, n_quick=200, n_thorough=6000):
     res = Result()
+    guard(res, "C06", subclass_refusals_stream, ctx, res)
     guard(res, "C06", refused_write_hook_stream, ctx, res)
     guard(res, "C06", lambda: P.run_stream(ctx, res, "C06", ctx.n(n_quick, n_thorough), oracle, gen_ops=gen_ops))
     guard(res, "C06", proxy_stream, ctx, res, ctx.n(60, 2000))
